@@ -14,6 +14,8 @@ OPS = ("cumsum", "cumcount", "cummin", "cummax")
 def case_name(c):
     m = c["mask"]["kind"]
     s = f"{c['op']}/{c['dtype']}/N={c['N']},G={c['G']}/mask={m}/skip_na={c.get('skip_na', True)}"
+    if c.get("chunks"):
+        s += "/valchunks=" + "+".join(map(str, c["chunks"]))
     if c.get("codes") is not None:
         s += "/codes=" + ",".join(map(str, c["codes"]))
     if c["mask"]["kind"] == "bool":
@@ -49,6 +51,14 @@ def call(E, case, d):
     if case["op"] == "cumcount":
         return nbm["cumcount"](codes, None, G, mask)
     vals = A(d["values"], dt).tag("input:values")
+    if case.get("chunks"):
+        # a chunked values array: the kernels walk the chunks one after the other
+        from ..models import FakeChunked
+        parts, p0 = [], 0
+        for L in case["chunks"]:
+            parts.append(vals[p0:p0 + L])
+            p0 += L
+        vals = FakeChunked(parts)
     return nbm[case["op"]](codes, vals, G, mask, case.get("skip_na", True))
 
 
@@ -163,6 +173,13 @@ def real_call(case, conc):
     if case["op"] == "cumcount":
         return rnb.cumcount(codes, None, case["G"], mask)
     vals = np_values(to_float_cells(conc["v"]), case["dtype"])
+    if case.get("chunks"):
+        import pyarrow as pa
+        parts, p0 = [], 0
+        for L in case["chunks"]:
+            parts.append(pa.array(vals[p0:p0 + L], from_pandas=False))
+            p0 += L
+        vals = pa.chunked_array(parts)
     return getattr(rnb, case["op"])(codes, vals, case["G"], mask, case.get("skip_na", True))
 
 
